@@ -290,3 +290,33 @@ func init() {
 		return prevItoa(fr, a)
 	}
 }
+
+func init() {
+	// bytes.* search functions: exact semantics by position-wise comparison (the std versions use
+	// Rabin-Karp hashing, whose multiplications are hopeless for the solver on symbolic bytes)
+	bs := func(v value) []value {
+		if v == nil {
+			return nil
+		}
+		return v.([]value)
+	}
+	externals["bytes.Index"] = func(fr *frame, a []value) value { return indexOf(bs(a[0]), bs(a[1]), 0) }
+	externals["bytes.Contains"] = func(fr *frame, a []value) value { return indexOf(bs(a[0]), bs(a[1]), 0) >= 0 }
+	externals["bytes.LastIndex"] = func(fr *frame, a []value) value {
+		s, sub := bs(a[0]), bs(a[1])
+		for i := len(s) - len(sub); i >= 0; i-- {
+			if matchAt(s, sub, i) {
+				return i
+			}
+		}
+		return -1
+	}
+	externals["bytes.HasPrefix"] = func(fr *frame, a []value) value {
+		s, p := bs(a[0]), bs(a[1])
+		return len(s) >= len(p) && matchAt(s, p, 0)
+	}
+	externals["bytes.HasSuffix"] = func(fr *frame, a []value) value {
+		s, p := bs(a[0]), bs(a[1])
+		return len(s) >= len(p) && matchAt(s, p, len(s)-len(p))
+	}
+}
